@@ -18,9 +18,8 @@ Model: `AsyncFix.Session` (`send_msg`, `Codec.encode` number selection, `allocat
 * `Slot sr c n f` – what the journal holds under `n` for a frame `f` once sent under `n`: `f` or a
   retransmitted copy of it (`Copy`), or – only when `f` is `Declined` (session-level type, or
   `should_replay` refused it or a copy of it) – a SequenceReset-GapFill row or nothing.
-* `boundedResend ev` – ResendRequest with EndSeqNo ≠ 0 (open C06 finding D9: rows above the range are
-  deleted).  `OutInv` and the numbering hold across those too; only the journal-content claim excludes
-  them.
+  ResendRequests of every class are covered (bounded and inverted ranges too: since fix da179c4 rows
+  above EndSeqNo are put back into the journal identically).
 -/
 namespace AsyncFix.Props.C05
 
@@ -202,27 +201,20 @@ theorem new_messages_consecutive (sr : Msg → Bool) (c : Conn) (evs : List Even
     (run sr c evs).1.sess.nextOut = c.sess.nextOut + (newWrites (run sr c evs).2).length ∧
     (run sr c evs).1.journal.outSeq + 1 = (run sr c evs).1.sess.nextOut ∧
     OutInv (run sr c evs).1 := by
-  have g := run_good (sr := sr) (U := False) (X := False) evs c hI hok (fun h => h.elim) (fun h => h.elim)
+  have g := run_good (sr := sr) (U := True) (X := False) evs c hI hok (fun h => h.elim)
   exact ⟨g.num, g.cnt, g.inv.counter, g.inv⟩
 
-/-- the journal-content claim for ALL histories; false because of the open C06 finding D9
-(Findings/C05 `not_new_messages_journaled_full`) -/
-def new_messages_journaled_full : Prop :=
-  ∀ (sr : Msg → Bool) (c : Conn) (evs : List Event), OutInv c →
-    (∀ ev ∈ evs, ev.ok ∧ isReset ev = false) → (run sr c evs).1.sess.nextOut ≤ sysMaxsize + 1 →
-    ∀ f ∈ newWrites (run sr c evs).2, ∀ n, seqOf f = some n → Slot sr (run sr c evs).1 n f
-
-/-- **new_messages_journaled_partial**: when no ResendRequest in the history is bounded
-(EndSeqNo ≠ 0, finding D9) and numbers fit SQLite's INTEGER, every new message `f` sent under `n` is
-at the end represented in the journal under `n` by `f` itself or a retransmitted copy of it; only a
-message that is never retransmitted (session-level type, or declined by `should_replay`) may instead
-be covered by a SequenceReset-GapFill row / lie inside a multi-number gap fill. -/
-theorem new_messages_journaled_partial (sr : Msg → Bool) (c : Conn) (evs : List Event) (hI : OutInv c)
-    (hok : ∀ ev ∈ evs, ev.ok ∧ isReset ev = false) (hnb : ∀ ev ∈ evs, boundedResend ev = false)
+/-- **new_messages_journaled**: over every history without `reset_seq_num()` – ResendRequests of EVERY
+class included (unbounded, bounded, inverted, out of range) – with numbers that fit SQLite's INTEGER,
+every new message `f` sent under `n` is at the end represented in the journal under `n` by `f` itself
+or a retransmitted copy of it; only a message that is never retransmitted (session-level type, or
+declined by `should_replay`) may instead be covered by a SequenceReset-GapFill row / lie inside a
+multi-number gap fill. -/
+theorem new_messages_journaled (sr : Msg → Bool) (c : Conn) (evs : List Event) (hI : OutInv c)
+    (hok : ∀ ev ∈ evs, ev.ok ∧ isReset ev = false)
     (hmax : (run sr c evs).1.sess.nextOut ≤ sysMaxsize + 1) :
     ∀ f ∈ newWrites (run sr c evs).2, ∀ n, seqOf f = some n → Slot sr (run sr c evs).1 n f :=
-  (run_good (sr := sr) (U := True) (X := False) evs c hI hok (fun _ => hnb) (fun h => h.elim)).freshSlot
-    trivial hmax
+  (run_good (sr := sr) (U := True) (X := False) evs c hI hok (fun h => h.elim)).freshSlot trivial hmax
 
 /-- **new_messages_readback**: in a history in which no ResendRequest arrives, the exact frame written
 for each new message is what `recover_messages(OUTBOUND, n, n)` returns at the end. -/
@@ -230,7 +222,7 @@ theorem new_messages_readback (sr : Msg → Bool) (c : Conn) (evs : List Event) 
     (hok : ∀ ev ∈ evs, ev.ok ∧ isReset ev = false) (hnr : ∀ ev ∈ evs, isResendReq ev = false) :
     ∀ f ∈ newWrites (run sr c evs).2, ∀ n, seqOf f = some n →
       (run sr c evs).1.journal.recoverOut n n = [f] := by
-  have g := run_good (sr := sr) (U := False) (X := True) evs c hI hok (fun h => h.elim) (fun _ => hnr)
+  have g := run_good (sr := sr) (U := True) (X := True) evs c hI hok (fun _ => hnr)
   intro f hf n hn
   exact recoverOut_single _ g.inv.sorted n f (g.freshRow trivial f hf n hn)
 
@@ -276,11 +268,11 @@ example : OutInv (run (fun _ => true) c0 hist).1 :=
 example : (newWrites (run (fun _ => true) c0 hist).2).map seqOf = [some 42, some 43, some 44, some 45] := by
   decide +kernel
 
-/-- the hypotheses of `new_messages_journaled_partial` hold for `hist` from `c0` (its ResendRequest has
-EndSeqNo = 0), those of `new_messages_readback` for the first five events (no ResendRequest yet) -/
-example : OutInv c0 ∧ (∀ ev ∈ hist, ev.ok ∧ isReset ev = false) ∧ (∀ ev ∈ hist, boundedResend ev = false) ∧
+/-- the hypotheses of `new_messages_journaled` hold for `hist` from `c0` (which services a ResendRequest),
+those of `new_messages_readback` for the first five events (no ResendRequest yet) -/
+example : OutInv c0 ∧ (∀ ev ∈ hist, ev.ok ∧ isReset ev = false) ∧
     (run (fun _ => true) c0 hist).1.sess.nextOut ≤ sysMaxsize + 1 :=
-  ⟨c0_inv, hist_ok, hist_unbounded, hist_max⟩
+  ⟨c0_inv, hist_ok, hist_max⟩
 
 example : ∀ f ∈ newWrites (run (fun _ => true) c0 (hist.take 5)).2, ∀ n, seqOf f = some n →
     (run (fun _ => true) c0 (hist.take 5)).1.journal.recoverOut n n = [f] :=
